@@ -163,6 +163,9 @@ func enumSpaces(c *harness.Ctx, forGrammar bool) []textSpace {
 	for n := 0; n <= 3; n++ {
 		for i := 0; i < pow(len(cAlpha), n); i++ {
 			between = append(between, nth(cAlpha, n, i, " "))
+			if n >= 2 {
+				between = append(between, nth(cAlpha, n, i, "")) // adjacent pieces: "/***/", "/**/", "*//"
+			}
 		}
 	}
 	for n := 0; n <= 2; n++ {
@@ -259,7 +262,7 @@ func quote(s string) string { return fmt.Sprintf("%q", s) }
 var illegalInsert = []string{"@", "#", "$", "~", "?", "é", "\x00", "`", "\""}
 
 func init() {
-	textRule := "all character strings of length <= 3 (quick) / <= 4 (thorough) over 31 scanner character-class representatives (letters, digits, _, ', space, newline, every punctuation the scanner knows, /, \\, an illegal ASCII character, a non-ASCII rune, the byte 0), all strings of length 4 / 5 over a 16-character sub-alphabet that exercises the multi-character tokens and comments, all token strings of length <= 3 / <= 4 over 57 lexemes (one per terminal, synonyms included), for every corpus/example file every prefix, every single-character deletion and every insertion of 16 legal/illegal fragments at every token boundary, and two-declaration programs with every comment skeleton of <= 3 pieces over {/*, */, *, /, x, //, newline} between the declarations and of <= 2 pieces after them"
+	textRule := "all character strings of length <= 3 (quick) / <= 4 (thorough) over 31 scanner character-class representatives (letters, digits, _, ', space, newline, every punctuation the scanner knows, /, \\, an illegal ASCII character, a non-ASCII rune, the byte 0), all strings of length 4 / 5 over a 16-character sub-alphabet that exercises the multi-character tokens and comments, all token strings of length <= 3 / <= 4 over 57 lexemes (one per terminal, synonyms included), for every corpus/example file every prefix, every single-character deletion and every insertion of 16 legal/illegal fragments at every token boundary, and two-declaration programs with every comment skeleton of <= 3 pieces (space-separated and adjacent) over {/*, */, *, /, x, //, newline} between the declarations and of <= 2 pieces after them"
 	harness.Register(&harness.Check{
 		ID: "C11", Level: "exploration",
 		Rule:        textRule + "; each text is parsed by the real (fuel-instrumented) parser under the scheduler: it must return (not panic, not block on the error channel), within a fuel bound linear in len(text), with a program or a non-empty error; distinct_nontrivial = distinct texts with at least 2 characters",
